@@ -125,6 +125,31 @@ def run(ctx):
                 if gz and r.chance(1, 3):
                     content = mutate(r, content, (0, len(content)))
                 raw_cases.append((fname, content, pre + ['--file', '@' + fname] + argv, kind + ('-gz' if gz else ''), ext))
+    # flux tracks whose sectors are not 256 bytes long (size codes 0, 2, 3), in every position of the track
+    for (nm, mfm) in (('z.hfe', False), ('z.mfm', True), ('w.hfe', True)):
+        for sizes in ([1024, 256, 256], [256, 512, 256], [256, 256, 128], [1024], [512, 512], [128, 256], [128], [256, 1024]):
+            trs = []
+            for t in range(2):
+                secs = {rec: r.bytes(n) for rec, n in enumerate(sizes)}
+                lay = flux.TrackLayout(mfm=mfm)
+                trs.append([flux.mfm_track(t, 0, secs, lay) if mfm else flux.fm_track(t, 0, secs, lay)])
+            img = flux.hxcmfm_image(trs, 1) if nm.endswith('.mfm') else flux.hfe_image(trs, 1, not mfm)
+            for cmd in (['cat'], ['dump-sector', '0', '0', '0'], ['dump-sector', '0', '1', str(len(sizes) - 1)]):
+                raw_cases.append((nm, img, ['--file', '@' + nm] + cmd, 'odd-sector-size', nm[nm.index('.'):]))
+    # every odd argument in every argument position, with and without an image
+    (bname, bdata, _) = bases[0]
+    for odd in ODD_ARGS:
+        for shape in (['--drive', odd, 'cat'], ['cat', odd], ['free', odd], ['space', odd], ['space', '0', odd], ['show-titles', odd], ['sector-map', odd],
+                      ['dump-sector', odd, '0', '0'], ['dump-sector', '0', odd, '0'], ['dump-sector', '0', '0', odd], ['info', odd], ['type', odd], ['--dir', odd, 'cat'],
+                      ['--ui', odd, 'cat'], ['extract-unused', odd], ['--drive', odd + 'A', 'info', '*.*']):
+            if ctx.tier == 'quick' and not r.chance(1, 2):
+                continue
+            pre = ['--verbose'] if r.chance(1, 4) else []
+            if shape[0].startswith('--'):
+                argv = pre + (shape[:2] + ['--file', '@' + bname] + shape[2:] if r.chance(1, 2) else ['--file', '@' + bname] + shape)
+            else:
+                argv = pre + ['--file', '@' + bname] + shape
+            raw_cases.append((bname, bdata, argv, 'odd-argument', bname[bname.index('.'):]))
     # command lines without any image, odd option usage
     for _ in range(20 if ctx.tier == 'quick' else 300):
         argv = [r.choice(['cat', 'info', 'free', 'space', 'show-titles', 'dump-sector', 'sector-map', 'type', 'extract-files', 'bogus', 'help', '--help', '--file', '--drive', '-', '--'])] + \
@@ -147,7 +172,7 @@ def run(ctx):
             ctx.oracle_cases += 1
             ctx.count('kind.' + m['kind'])
             ctx.count('ext' + (m['ext'] or '.none'))
-            ctx.case((kind_build, tuple(c.real_argv[-3:]), tuple(sorted((k, hash(v)) for k, v in c.files.items()))), m['kind'] != 'valid',
+            ctx.case((kind_build, tuple(c.real_argv[-4:]), tuple(sorted((k, hash(v)) for k, v in c.files.items()))), m['kind'] != 'valid',
                      sample={'build': kind_build, 'kind': m['kind'], 'argv': [a.decode('latin-1')[-40:] for a in c.real_argv][-5:], 'exit': i['exit']})
             rp = common.replay_of(c)
             if i['exit'] == -999:
